@@ -502,6 +502,10 @@ class CallsMixin:
         src = args[0]
         if isinstance(src, PyObj) and src.tag == 'emptylist':
             return src
+        if isinstance(src, V) and isinstance(src.kind, K.Opt):
+            self.implicit_raise(z3.Not(K.opt_isnone(src)), 'TypeError', "'NoneType' object is not iterable", node)
+            src = K.opt_inner(src)
+            args = [src] + list(args[1:])
         if isinstance(src, PyObj):
             raise Unsupported('sorted(%r)' % (src,))
         key = kwargs.get('key')
